@@ -1,4 +1,5 @@
 import PeliteModel.Lemmas.PeCsum
+import PeliteModel.Lemmas.PeHdr
 /-! C07, last clause: the computed checksum equals the standard PE checksum of the buffer. -/
 namespace Pelite.Pe
 
@@ -19,5 +20,50 @@ theorem C07_checksum_std_general (v : View) (hl : eLfanew v.img.bytes % 4 = 0)
     (hp : (eLfanew v.img.bytes + 24 + 64) / 4 ≠ v.img.bytes.size / 4 ∨ v.img.bytes.size % 4 = 0) :
     v.checkSum = stdPeChecksum v.img.bytes :=
   checkSum_std_general v hl hp
+
+/-- **The clause as the property states it**: for every image the constructor accepts (either format,
+file or mapped, every buffer length) the computed checksum is the standard PE checksum of the buffer.
+The two hypotheses of `C07_checksum_std` are discharged by acceptance: `e_lfanew` is a multiple of 4
+and the NT headers (at least 120 bytes, the CheckSum dword ends at +92) lie inside the buffer. -/
+theorem C07_checksum_accepted (f : Fmt) (k : Kind) (img : Img) (v : View) (h : fromBytes f k img = .ok v) :
+    v.checkSum = stdPeChecksum img.bytes := by
+  obtain ⟨ha, rfl⟩ := (fromBytes_ok_iff _ _ _ _).1 h
+  unfold Accept at ha
+  dsimp only at ha
+  obtain ⟨-, -, -, h4, -, h6, -⟩ := ha
+  have hf : 120 ≤ f.ntSize := by cases f <;> decide
+  exact checkSum_std _ h4 (by dsimp only; omega)
+
+/-- … also through the format-agnostic constructor. -/
+theorem C07_checksum_accepted_wrap (k : Kind) (img : Img) (v : View) (h : wrapFromBytes k img = .ok v) :
+    v.checkSum = stdPeChecksum img.bytes :=
+  C07_checksum_accepted v.fmt k img v (wrap_ok_imp k img v h)
+
+/-- the two hand-built images of Lemmas/PeHdr.lean as constructed views, and the first with one byte
+appended (length 289 = 1 mod 4: the trailing partial dword takes part) -/
+def csV32 : View := ⟨⟨twoSecPe32, 0⟩, .pe32, .file, imageBaseField .pe32 twoSecPe32⟩
+def csV64 : View := ⟨⟨onePe64, 0⟩, .pe64, .view, imageBaseField .pe64 onePe64⟩
+def csV32odd : View := ⟨⟨twoSecPe32.push 7, 0⟩, .pe32, .file, imageBaseField .pe32 (twoSecPe32.push 7)⟩
+
+/-- Non-vacuity and closed instances: the images are accepted, and the numbers computed by the model of
+`check_sum` are the ones the standard algorithm gives. -/
+example : fromBytes .pe32 .file ⟨twoSecPe32, 0⟩ = .ok csV32 ∧ csV32.checkSum = 17623 ∧
+    stdPeChecksum twoSecPe32 = 17623 ∧
+    fromBytes .pe64 .view ⟨onePe64, 0⟩ = .ok csV64 ∧ csV64.checkSum = 59622 ∧ stdPeChecksum onePe64 = 59622 ∧
+    fromBytes .pe32 .file ⟨twoSecPe32.push 7, 0⟩ = .ok csV32odd ∧ csV32odd.checkSum = 17631 ∧
+    stdPeChecksum (twoSecPe32.push 7) = 17631 := by
+  have h1 : fromBytes .pe32 .file ⟨twoSecPe32, 0⟩ = .ok csV32 :=
+    (fromBytes_ok_iff _ _ _ _).2 ⟨by decide +kernel, rfl⟩
+  have h2 : fromBytes .pe64 .view ⟨onePe64, 0⟩ = .ok csV64 :=
+    (fromBytes_ok_iff _ _ _ _).2 ⟨by decide +kernel, rfl⟩
+  have h3 : fromBytes .pe32 .file ⟨twoSecPe32.push 7, 0⟩ = .ok csV32odd :=
+    (fromBytes_ok_iff _ _ _ _).2 ⟨by decide +kernel, rfl⟩
+  have s1 : stdPeChecksum twoSecPe32 = 17623 := by decide +kernel
+  have s2 : stdPeChecksum onePe64 = 59622 := by decide +kernel
+  have s3 : stdPeChecksum (twoSecPe32.push 7) = 17631 := by decide +kernel
+  -- the model side from the theorem, not by evaluation
+  exact ⟨h1, (C07_checksum_accepted .pe32 .file ⟨twoSecPe32, 0⟩ csV32 h1).trans s1, s1,
+    h2, (C07_checksum_accepted .pe64 .view ⟨onePe64, 0⟩ csV64 h2).trans s2, s2,
+    h3, (C07_checksum_accepted .pe32 .file ⟨twoSecPe32.push 7, 0⟩ csV32odd h3).trans s3, s3⟩
 
 end Pelite.Pe
